@@ -219,11 +219,17 @@ def start_point(draw, spec, allow_none=True, kinds=None):
         scale = draw(st.sampled_from([0.125, 1.0, 8.0]))
         raw = np.array(dvec(draw, n)) * scale + shift
         x0 = np.clip(raw, lb, ub).tolist()
-    ykind = draw(st.sampled_from(["none", "zero", "rand", "rand", "big"]))
+    if isinstance(x0, list) and draw(st.integers(0, 3)) == 0:
+        # a start that is not a dyadic rational (sums and products of the data are then inexact from the first step on,
+        # so that a changed order of floating-point operations shows in the bits)
+        x0 = np.clip(np.array(x0, dtype=float) * 0.1 + np.array(shift) * 0.9, lb, ub).tolist()
+    ykind = draw(st.sampled_from(["none", "zero", "rand", "rand", "big", "decimal"]))
     if ykind == "none" or m == 0:
         y0 = None
     elif ykind == "zero":
         y0 = [0.0] * m
+    elif ykind == "decimal":
+        y0 = [0.1 * v for v in dvec(draw, m)]
     elif ykind == "rand":
         y0 = dvec(draw, m)
     else:
